@@ -2,7 +2,7 @@
 From Coq Require Import List NArith Bool String.
 Local Open Scope string_scope.
 From OC Require Import Base.Bytes Model.Merge Model.CfgStore
-     Proofs.MergeProofs Proofs.PathProofs Proofs.MergeRefute Proofs.CommitProofs.
+     Proofs.MergeProofs Proofs.TextPathProofs Proofs.MergeRefute Proofs.CommitProofs.
 Import ListNotations.
 Open Scope N_scope.
 Open Scope list_scope.
